@@ -8,7 +8,10 @@ ID = 'C10'
 LEVEL = 'proof'
 THEOREMS = [('DebInspector.Thm.C10', ['Props.C10.numberFrom_shift', 'Props.C10.linesFromText_shift']),
             ('DebInspector.Thm.C10S', ['Props.C10S.shift_sound', 'Props.C10S.shift_clause', 'Props.C10S.go_shift', 'Props.C10S.fromFieldsGroups_shift',
-                                       'Props.C10S.mergeRun_shift', 'Props.C10S.foldLoop_shift'])]
+                                       'Props.C10S.mergeRun_shift', 'Props.C10S.foldLoop_shift']),
+            ('DebInspector.Thm.C10R', ['Props.C10R.sound', 'Props.C10R.fromText_V', 'Props.C10R.parse_fldR', 'Props.C10R.field_range', 'Props.C10R.addField_R',
+                                       'Props.C10R.fromFields_V', 'Props.C10R.groups_V', 'Props.C10R.mergeRun_V', 'Props.C10R.mergeUnknown_V',
+                                       'Props.C10R.fold_V', 'Props.C10R.foldLoop_V', 'Props.C10R.foldLicense_V', 'Props.C10R.valued_sorted', 'Props.C10R.chain_words'])]
 TRUSTED = [
     'Lean 4.33.0 kernel',
     'reading of the property as Props.C10.holdsOn (range exists, inside the file, first/last line hold content, words of the value occur in the range, ranges disjoint and increasing, shift by k)',
@@ -18,13 +21,17 @@ TRUSTED = [
 ASSUMPTIONS = ['texts are str objects; words are white-space separated tokens, dot-only lines carry none']
 RULE = ('C05/C07 texts plus recovery-path families at random offsets: value-less declaration + blank lines + continuation; runs of junk lines anywhere; '
         'empty License: followed by free text with >= 3 paragraphs; k in {0,1,3}. non-trivial = some field has a non-empty value')
-TECHNIQUE = ('Lean 4 theorem Props.C10S.shift_sound (the shift clause, for every text and every k) + executable range specification evaluated on every implementation observation '
-             '+ correspondence with the hand model of the pipeline')
-LEVEL_TEXT = ('Props.C10S.shift_sound / shift_clause: for every text and every k, the model of the copyright object of the text with k blank lines on top is the object of the text with every line range moved by exactly k and nothing else changed '
-              '(go_shift: the line-tracking loop does not look at line numbers; fromFieldsGroups_shift: neither do from_fields with its skipped-blank-lines offset, the merge of unknown paragraphs with its minimum / maximum ranges (mergeRun_shift) '
-              'nor the fold into an empty license (foldLoop_shift); linesFromText_shift: the source lines are renumbered by k). '
-              'The other range clauses (a range for every field with a value, bounds, content on the first and last line, word inclusion, disjoint and increasing within and across paragraphs) are decided by the executable specification '
-              'on every implementation observation and by correspondence with the hand model including the merge and fold recovery paths; they are not yet theorems.')
+TECHNIQUE = ('Lean 4 theorem Props.C10R.sound (every clause, for every text and every k, through the merge and fold recovery paths) + executable range specification evaluated on every '
+             'implementation observation + correspondence with the hand model of the pipeline')
+LEVEL_TEXT = ('Props.C10R.sound: for every text and every k the whole property holds on the model - every field with a non-empty value of every paragraph carries a range inside the file '
+              'whose first line holds content (for a declaration line: after its "Name:"), whose last line is not blank and whose lines contain every word of the value; the ranges of the fields with '
+              'a value are disjoint and increasing in source order within and across paragraphs; k blank lines on top shift every range by k and change nothing else. The proof follows the pipeline: '
+              'parse_fldR (every tracked field: consecutive true line numbers, own text, later lines are not declarations, no trailing blank line - from the C05 theorem and one more invariant of the loop), '
+              'field_range (the range from_fields records starts at the first line of the field that is not blank and its lines spell exactly the words of the value), addField_R / fromFields_V / groups_V '
+              '(an accumulator invariant through the renaming loop: names fresh, ranges recorded in source order), mergeRun_V / mergeUnknown_V (a merged run of free-text paragraphs gets the hull of its '
+              'ranges, which contains the words of all its values: chain_words), fold_V / foldLoop_V / foldLicense_V (a folded license takes over the one range of the paragraph folded into it; the list of '
+              'ranges is conserved), valued_sorted (sorting the valued ranges of a paragraph gives them in source order), and Props.C10S.shift_sound for the shift clause. '
+              'While planning the proof one false alarm of the specification was found and removed (interior declaration lines of a merged block, see DESIGN 0.4).')
 LEVEL_NOTE = ('Trusted: Lean kernel; axioms propext, Classical.choice, Quot.sound only for the registered theorems; the range clauses rest on specification evaluation + correspondence.')
 
 
